@@ -1,14 +1,14 @@
 import LdarModel.Model.Window
 import LdarModel.Driver.Proto
 /-
-Driver for the estimation-window model (exact arithmetic, `exactFloor`).
+Driver for the estimation-window model (exact arithmetic, `exactRounding`).
   table <mode 0=site|1=comp> <p> <q> <S> <E> [[site,eqg,comp,date,rate],...]     (eqg/comp -1 = None)
     -> site,eqg,comp:[[start,stop,date,rate,volNum],...]|...      groups in order of first occurrence
        ("none" when there is no group)
   offs <p> <q> <g0> <g1>
-    -> for every gap g0..g1 six integers, space separated:
-       endOffset g True, endOffset g False, startOffset g True, startOffset g False,
-       startOffsetCeil g True, startOffsetCeil g False
+    -> for every gap g0..g1 eight integers, space separated:
+       endOffset g True, endOffset g False, startOffset g True, startOffset g False   (repaired code)
+       endOffsetOrig g True/False, startOffsetOrig g True/False   (code before the repairs, exact)
   share <p> <q> <g0> <g1>
     -> for every gap g0..g1 two integers: floor(g·f) ceil(g·f)
   tiles <S> <E> [[start,stop],...]  -> 1/0   (the model's own `Tiles` predicate)
@@ -49,7 +49,7 @@ def step (_ : Unit) (toks : List String) : Unit × String :=
       if q ≤ 0 ∨ m > 1 then ((), "bad-op")
       else
         let mode := if m = 0 then Mode.site else Mode.comp
-        let rep := report mode (exactFloor { p := p, q := q }) s e recs
+        let rep := report mode (exactRounding { p := p, q := q }) s e recs
         ((), if rep.isEmpty then "none" else "|".intercalate (rep.map showGroup))
     | _, _, _, _, _, _ => ((), "bad-op")
   | ["offs", p, q, g0, g1] =>
@@ -58,9 +58,9 @@ def step (_ : Unit) (toks : List String) : Unit × String :=
       if q ≤ 0 then ((), "bad-op")
       else
         let f : Fac := { p := p, q := q }
-        let ρ := exactFloor f
+        let ρ := exactRounding f
         let one (g : Int) : String :=
-          s!"{endOffset ρ g true} {endOffset ρ g false} {startOffset ρ g true} {startOffset ρ g false} {startOffsetCeil f g true} {startOffsetCeil f g false}"
+          s!"{endOffset ρ g true} {endOffset ρ g false} {startOffset ρ g true} {startOffset ρ g false} {endOffsetOrig f g true} {endOffsetOrig f g false} {startOffsetOrig f g true} {startOffsetOrig f g false}"
         ((), " ".intercalate ((gapsOf g0 g1).map one))
     | _, _, _, _ => ((), "bad-op")
   | ["share", p, q, g0, g1] =>
@@ -69,7 +69,8 @@ def step (_ : Unit) (toks : List String) : Unit × String :=
       if q ≤ 0 then ((), "bad-op")
       else
         let f : Fac := { p := p, q := q }
-        let one (g : Int) : String := s!"{exactFloor f g false} {startOffsetCeil f g false}"
+        let ρ := exactRounding f
+        let one (g : Int) : String := s!"{ρ.lo g} {ρ.hi g}"
         ((), " ".intercalate ((gapsOf g0 g1).map one))
     | _, _, _, _ => ((), "bad-op")
   | ["tiles", s, e, ws] =>
